@@ -1,5 +1,6 @@
 """C17 — no input makes the library crash, corrupt memory or kill the host process (DESIGN.md §3 C17; narrow)."""
 import re
+import os
 from engine.rulelib import *
 from engine import tables, callgraph, bounds
 
@@ -997,6 +998,45 @@ HALF_BUILT = {
 }
 
 
+def callers_test_key(prog, g, acc, is_accessor):
+    """g is a file-local free function that uses <accessor>(<parameter>) untested: do all its callers (same file) establish `<accessor>(<argument>) != NULL` before the call?"""
+    m = re.fullmatch(r'(\w+)\((\w+)\)', acc)
+    if not m:
+        return False
+    accname, pname = m.groups()
+    pn = [pp['var']['name'] if pp.get('var') else None for pp in g['params']]
+    if pname not in pn:
+        return False
+    pi = pn.index(pname)
+    callers = [h for h in prog.functions.values() if h.get('body') is not None and os.path.basename(h['file']) == os.path.basename(g['file']) and any(c.get('callee') == g['qname'] for c in calls(h['body']))]
+    if not callers:
+        return False
+    for h in callers:
+        holders = {}
+        for n in walk(h['body']):
+            if n.get('k') == 'Decl':
+                for d in n['decls']:
+                    i = d.get('init')
+                    while i is not None and i.get('k') in ('Cast', 'Paren') and i.get('e') is not None:
+                        i = i['e']
+                    if is_accessor(i):
+                        holders[d['var']['name']] = canon(i)
+
+        def trig(e, st):
+            return ('call', e['l']) if e.get('k') == 'Call' and e.get('callee') == g['qname'] else None
+        sf = SiteFacts(h, prog, trigger=trig, track_facts=r'^\w+$|^EQ\(\w+,NULL\)$|.*(getOSSLKey|getBotanKey)\(\w+\).*').go()
+        for (_, line), hits in sf.sites.items():
+            c = [c for c in calls(h['body']) if c.get('callee') == g['qname'] and c['l'] == line][0]
+            if pi >= len(c.get('args', [])):
+                return False
+            want = '%s(%s)' % (accname, canon(c['args'][pi]))
+            same = [want] + [v for v, a in holders.items() if a == want]
+            for hit in hits:
+                if not any((v, True) in hit['facts'] or ('EQ(%s,NULL)' % v, False) in hit['facts'] for v in same):
+                    return False
+    return True
+
+
 def r12_key_objects(ctx, prog):
     """A key object can reach the crypto back end with an empty component (C_CreateObject accepts it, an object file can hold it).  (a) Whoever asks a key class for the
     crypto library's key object tests the answer before handing it to the library - the siblings (ECDSA, EDDSA, DH, ECDH) always did; (b) the functions that build that object
@@ -1060,6 +1100,9 @@ def r12_key_objects(ctx, prog):
                 def tested(h):
                     return any((v, True) in h['facts'] or ('EQ(%s,NULL)' % v, False) in h['facts'] for v in same)
                 bad = [h for h in hits if not tested(h)]
+                if bad and not f.get('class') and callers_test_key(prog, f, acc, is_accessor):
+                    r.ok(f['qname'], site, 'file-local helper: every caller tests the key object before the call', file=f['file'], line=line)
+                    continue
                 if bad:
                     r.violation(f['qname'], site, '%s, the answer of %s, goes to %s without a NULL test; the key class gives no key object when a component of the key is missing or empty (C_CreateObject accepts such a key, an object file can hold one): the process crashes' % (name, acc, callee),
                                 file=f['file'], line=line, path=bad[0]['path'])
